@@ -1,6 +1,7 @@
 package props
 
 import (
+	"math"
 	"github.com/fufuok/cache/zzverif/model"
 	"github.com/fufuok/cache/zzverif/stats"
 	"pgregory.net/rapid"
@@ -57,7 +58,8 @@ func genC16(rt *rapid.T) *Program {
 		present[k] = pr
 		if pr {
 			if isCache {
-				d := pick(rt, []int64{model.NoExpiration, 1000000, 5000}, "ttl")
+				// the last two: now+d wraps around int64 (a negative stamp: the library treats it as "never expires")
+				d := pick(rt, []int64{model.NoExpiration, 1000000, 5000, math.MaxInt64, math.MaxInt64 - 1600000000000000000}, "ttl")
 				p.Pre = append(p.Pre, model.Op{K: model.CSet, Key: k, Val: val(), D: d})
 			} else {
 				p.Pre = append(p.Pre, model.Op{K: model.MStore, Key: k, Val: val()})
